@@ -280,13 +280,16 @@ def build_community(version: int, community: bytes, pdu: bytes, forms=None) -> b
 
 
 def build_v3(msgid, maxsize, flags, engine, boots, time, user, auth, priv, payload: bytes, forms=None) -> bytes:
-    """payload: already encoded scoped PDU sequence (plaintext) or OCTET STRING (ciphertext)"""
+    """payload: already encoded scoped PDU sequence (plaintext) or OCTET STRING (ciphertext)
+    forms keys: top, ver, hdr, hf (every header field), spw, usm, uf_engine uf_boots uf_time uf_user uf_auth uf_priv"""
     fm = forms or {}
-    sp = seq(enc_str(engine), enc_int(boots), enc_int(time), enc_str(user), enc_str(auth), enc_str(priv), form=fm.get("usm"))
-    hdr = seq(enc_int(msgid), enc_int(maxsize), enc_str(bytes([flags])), enc_int(3), form=fm.get("hdr"))
-    return seq(enc_int(3), hdr, enc_str(sp, form=fm.get("spw")), payload, form=fm.get("top"))
+    sp = seq(enc_str(engine, form=fm.get("uf_engine")), enc_int(boots, form=fm.get("uf_boots")), enc_int(time, form=fm.get("uf_time")),
+             enc_str(user, form=fm.get("uf_user")), enc_str(auth, form=fm.get("uf_auth")), enc_str(priv, form=fm.get("uf_priv")), form=fm.get("usm"))
+    hf = fm.get("hf")
+    hdr = seq(enc_int(msgid, form=hf), enc_int(maxsize, form=hf), enc_str(bytes([flags]), form=hf), enc_int(3, form=hf), form=fm.get("hdr"))
+    return seq(enc_int(3, form=fm.get("ver")), hdr, enc_str(sp, form=fm.get("spw")), payload, form=fm.get("top"))
 
 
 def build_scoped(ctxengine: bytes, ctxname: bytes, pdu: bytes, forms=None) -> bytes:
     fm = forms or {}
-    return seq(enc_str(ctxengine), enc_str(ctxname), pdu, form=fm.get("spdu"))
+    return seq(enc_str(ctxengine, form=fm.get("sf")), enc_str(ctxname, form=fm.get("sf")), pdu, form=fm.get("spdu"))
